@@ -248,7 +248,7 @@ func (s *Snapshot) Materialise(cfgs []GenConfig) ([]*Materialised, error) {
 	res := make([]*Materialised, len(cfgs))
 	var wg sync.WaitGroup
 	sem := make(chan struct{}, 8)
-	var mu sync.Mutex
+	var mu sync.RWMutex // copy-back writes the snapshot; a private copy must not read it half-written (rsync temp files vanish)
 	for i, c := range cfgs {
 		res[i] = &Materialised{Config: c, Files: map[string]string{}}
 		wg.Add(1)
@@ -260,7 +260,10 @@ func (s *Snapshot) Materialise(cfgs []GenConfig) ([]*Materialised, error) {
 			priv := &Snapshot{Dir: filepath.Join(s.base, fmt.Sprintf("gen-%d", idx), "repo"), base: s.base}
 			os.MkdirAll(filepath.Dir(priv.Dir), 0o755)
 			defer os.RemoveAll(filepath.Dir(priv.Dir))
-			if out, err := exec.Command("rsync", "-a", s.Dir+"/", priv.Dir+"/").CombinedOutput(); err != nil {
+			mu.RLock()
+			out, err := exec.Command("rsync", "-a", s.Dir+"/", priv.Dir+"/").CombinedOutput()
+			mu.RUnlock()
+			if err != nil {
 				m.Err = fmt.Sprintf("private copy: %v: %s", err, out)
 				return
 			}
@@ -285,7 +288,7 @@ func (s *Snapshot) Materialise(cfgs []GenConfig) ([]*Materialised, error) {
 			cmd := exec.Command(gen, args...)
 			cmd.Dir = dir
 			cmd.Env = goEnv()
-			out, err := cmd.CombinedOutput()
+			out, err = cmd.CombinedOutput()
 			if err != nil {
 				m.Err = fmt.Sprintf("generator failed for %s: %v\n%s", c.Name, err, tail(string(out), 2000))
 				return
